@@ -4,8 +4,9 @@ E3: the UNMODIFIED src/engine/engine_thread.cc is compiled with the vsched prelu
 (std::atomic / std::thread replaced by scheduler-controlled doubles) and driven by
 native/drivers/c03_threadpool.cc.  For every pool history over the alphabet
 {create/resize n, dispatch t, destroy} up to a length bound, ALL thread
-interleavings with <= P preemptions are executed (stateless DFS, one forked child
-per execution, spin loops turned into blocking, deadlock/livelock detection).
+interleavings with <= P preemptions are executed (stateless search, executions run
+in a persistent worker process, spin loops turned into blocking, deadlock/livelock
+detection).
 E5: a TLA+ model of the batch protocol (models/ThreadPool.tla) is checked by TLC
 and an edge cover of its state graph is replayed as forced schedules against the
 implementation (see _c03_conformance.py).
@@ -105,13 +106,19 @@ def _chunk(chunk):
 
 def run(ctx):
     x = exe()
-    maxlen = ctx.q(3, 4)
+    maxlen = 3
     bound = ctx.q(2, 3)
     hs = histories(maxlen, ctx.q(2, 3), 3)
-    cap = ctx.q(4000, 400000)
+    cap = ctx.q(4000, 60000)
     # most expensive first so that the pool of workers stays busy
     hs.sort(key=lambda h: -sum(int(o[1:]) + 1 for o in h.split(",")))
-    core.pmap(ctx, _chunk, [(x, h, bound, cap) for h in hs], nchunks=min(len(hs), 16 * 8))
+    jobs = [(x, h, bound, cap) for h in hs]
+    if ctx.thorough:
+        # longer histories with a smaller preemption bound
+        h4 = [h for h in histories(4, 2, 3) if h.count(",") == 3]
+        jobs += [(x, h, 1, 5000) for h in h4]
+        maxlen = 4
+    core.pmap(ctx, _chunk, jobs, nchunks=min(len(jobs), 16 * 8))
     ctx.extra["preemption_bound"] = bound
     ctx.extra["history_len_bound"] = maxlen
     # E5: TLC model + conformance replay
@@ -122,4 +129,4 @@ def run(ctx):
                 "inside each task). non-trivial = execution of a history that dispatches >=2 tasks on a pool with >=1 worker. "
                 "states = distinct schedule prefixes (decision nodes) visited; traces_validated = executions on the real code "
                 "+ TLC paths replayed as forced schedules" % (maxlen, ctx.q(2, 3), bound))
-    ctx.assumptions = ["sequentially consistent atomics", "cap of %d executions per history (reported if hit)" % cap]
+    ctx.assumptions = ["sequentially consistent atomics", "cap of %d executions per history (reported if hit); thorough adds all length-4 histories at 1 preemption" % cap]
